@@ -285,6 +285,13 @@ def gen_tree_rules(rng, names):
             seg = rng.choice(nm.split("/"))
             if seg and all(c in LIT for c in seg):
                 r["match_expression"] = rng.choice(["", "^"]) + seg + rng.choice(["", "/", ".*", "/(.*)"])
+        if len(names) >= 2 and rng.random() < 0.25:
+            # rename one name in use onto ANOTHER name in use (which the rule leaves alone)
+            a, b = rng.sample(names, 2)
+            if all(c in LIT for c in a) and "\\" not in b:
+                r["match_expression"] = "^" + a + "$"
+                r["replacement"] = b
+                r["ignore"] = False
         rules.append(r)
     return rules
 
@@ -432,6 +439,23 @@ def gen_case_real_overflow(rng):
         ops.append({"how": "raw", "name": "%d/u" % i, "scope": "", "forced": False, "d": [1, 0, 1, 9, 0, 4]})
     t = {"k": "adds", "b": new_node("real"), "ops": ops}
     return {"cls": "B", "mode": "full", "cmp_forced": True, "tree": t, "desc": "real table overflow 1995u+10f+10u"}
+
+
+def gen_case_rename_collision(rng, k):
+    """rules rename k names ONTO a name that is itself in the table and that no rule changes: the
+    contributions must be combined whatever order the table is walked in (seeded/C07b)"""
+    target = rng.choice(["Custom/user/all", "a/b/c", "x"])
+    stem = target.rsplit("/", 1)[0] if "/" in target else "y"
+    names = [target] + ["%s/%d" % (stem, 10 + i) for i in range(k)] + ["Apdex"]
+    units = gen_units(rng, 3 * (k + 2), names, ["T", "WebTransaction/Uri/a"], forced_policy(rng, True), allow_count=False)
+    # make sure the target and every colliding name really are present, scoped and unscoped
+    for j, nm in enumerate(names[:-1]):
+        units.append({"u": "raw", "name": nm, "scope": "" if j % 2 == 0 else "T", "forced": False,
+                      "d": [1, 1 << (3 * (k + 2) + j), j, j + 1, j + 2, j + 3]})
+    sub = units_to_nodes(rng, new_node(1000), units)
+    rules = [{"match_expression": "^%s/[0-9]+$" % stem, "replacement": target, "eval_order": 1}]
+    sub = {"k": "rules", "b": sub, "rules": json.dumps(rules)}
+    return {"cls": "A", "mode": "full", "cmp_forced": True, "tree": sub, "desc": "rename collision onto an unchanged name k=%d" % k}
 
 
 def gen_case_failed_chain(rng, n, with_rules):
@@ -622,6 +646,8 @@ def run(chk, replay=None):
         for n in (1, 4, 5, 6, 7):
             tcases.append(gen_case_failed_chain(rng, n, False))
             tcases.append(gen_case_failed_chain(rng, n, True))
+        for k in (1, 2, 4, 8, 8, 6) if quick else [1, 2, 3, 4, 5, 6, 7, 8] * 8:
+            tcases.append(gen_case_rename_collision(rng, k))
         for i in range(12 if quick else 100):
             tcases.append(gen_case_scoped(rng, i))
         for i in range(nA):
